@@ -237,6 +237,15 @@ def work(job):
                         bad = "call trace %s, frames active at the failure %s" % (got_n, want)
                     elif out != lines:
                         bad = "output before the failure differs"
+                    elif detail.startswith("assert") and item[0] == "assert":
+                        # a failed assert names file, line and column of THAT assert (position read off the source text)
+                        src_text = ref.render(prog, vals)
+                        want_pos = gen17.assert_position(src_text, vals[0] if 1 <= vals[0] <= 7 else 0)
+                        mpos = re.search(r"\(([^():\s]+):(\d+):(\d+)\)", err)
+                        got_pos = (int(mpos.group(2)), int(mpos.group(3))) if mpos else None
+                        res["assert_positions_compared"] = res.get("assert_positions_compared", 0) + 1
+                        if want_pos is None or got_pos != want_pos or not mpos.group(1).endswith(".ms"):
+                            bad = "the failed assert is reported at %s, the statement is at %s (line, column)" % (got_pos, want_pos)
                     if bad:
                         res.setdefault("c17", []).append({"inputs": vals, "why": bad, "expected": [st, lines, want], "real": [rc, out, (got or err[-300:])]})
                     err = err[-400:]
@@ -457,6 +466,7 @@ def report(a, prop, results, space, full_depth, t0):
         "failing_paths_compared (assert, zero divisor, overflow: output must stop at the same statement)": sum(r.get("fail_paths", 0) for r in results),
         "traces_validated_against_impl": nval, "summary_mismatches": len(mism),
         "pipeline_runs_compared (`run` vs. the file pipeline of this property on the same program and inputs: stdout byte for byte, success / failure)": sum(r.get("pipeline_runs", 0) for r in results),
+        "assert_positions_compared (file:line:column named by the report vs. where the failing assert stands in the source)": sum(r.get("assert_positions_compared", 0) for r in results),
         "call_traces_compared (failing real runs: status 1, no panic, trace = frames active at the failure)": sum(r.get("call_traces_compared", 0) for r in results),
         "trace_records_compared (real interpreter vs. instruction summary, per executed instruction: function, ip, frames, scope markers, operand-stack size)": sum(r.get("trace_records", 0) for r in results),
         "family": {"exhaustive_to_depth": full_depth, "space_listed": space, "selected": len(results)},
